@@ -98,7 +98,7 @@ fn forms(ctx: &mut Ctx, env: &Env, rng: &mut Rng, base: &Engine, descr: &str) {
     }
     outs.push(("stamped and plain lines alternating", e.synthesize(mixed).map_err(|e| format!("{}", e))));
     // odd but valid time spellings
-    let weird: Vec<String> = strings.iter().map(|s| format!("{} {} {}", *rng.pick(&["0", "1e3", "2.5", "+7", "-1", "1e400", "inf", "NaN"]), *rng.pick(&["0", "1e5", "3.25e6", "-1", "1e400", "nan"]), s)).collect();
+    let weird: Vec<String> = strings.iter().map(|s| format!("{} {} {}", *rng.pick(&["0", "1e3", "2.5", "+7", "-1", "1e400", "inf", "NaN", "18446744073709551616", "0000000000000000000000012"]), *rng.pick(&["0", "1e5", "3.25e6", "-1", "1e400", "nan", "99999999999999999999999", "18446744073709551615", "340282366920938463463374607431768211456"]), s)).collect();
     outs.push(("float-spelled time stamps, alignment off", e.synthesize(weird).map_err(|e| format!("{}", e))));
     for (name, r) in outs {
         match r {
@@ -125,6 +125,38 @@ fn forms(ctx: &mut Ctx, env: &Env, rng: &mut Rng, base: &Engine, descr: &str) {
                 ("&[String], alignment on", ea.synthesize(&strings[..]).map_err(|e| format!("{}", e))),
                 ("Vec<String>, alignment on", ea.synthesize(strings.clone()).map_err(|e| format!("{}", e))),
             ];
+            // time stamps in force: blank lines anywhere between the stamped lines change nothing
+            {
+                let plain = ea.synthesize(timed.clone()).map_err(|e| format!("{}", e));
+                let mut with_blanks: Vec<String> = Vec::new();
+                if rng.chance(0.5) {
+                    with_blanks.push(String::new());
+                }
+                for (i, t) in timed.iter().enumerate() {
+                    with_blanks.push(t.clone());
+                    if i + 1 < timed.len() && rng.chance(0.4) {
+                        with_blanks.push(String::new());
+                    }
+                }
+                let blanks = ea.synthesize(with_blanks).map_err(|e| format!("{}", e));
+                let trefs: Vec<&str> = timed.iter().map(|s| s.as_str()).collect();
+                let as_refs = ea.synthesize(&trefs[..]).map_err(|e| format!("{}", e));
+                ctx.count("aligned_stamped_forms_compared", 2.0);
+                for (name, other) in [("time-stamped with blank lines, alignment on", &blanks), ("time-stamped &[&str], alignment on", &as_refs)] {
+                    let agree = match (&plain, other) {
+                        (Ok(a), Ok(b)) => same(a, b),
+                        (Err(_), Err(_)) => true,
+                        _ => false,
+                    };
+                    if !agree {
+                        ctx.violation(
+                            "input-forms-disagree",
+                            d(J::obj().set("form", name).set("len", other.as_ref().map(|w| w.len() as f64).unwrap_or(-1.0)).set("reference_len", plain.as_ref().map(|w| w.len() as f64).unwrap_or(-1.0)).set("lines", J::Arr(timed.iter().take(4).map(|s| J::Str(s.chars().take(40).collect())).collect()))),
+                        );
+                        return;
+                    }
+                }
+            }
             for (name, r) in outs_a {
                 match r {
                     Ok(w) => {
